@@ -1,8 +1,9 @@
 (* Correspondence suites for C09: suite name -> arguments -> observation text.
    StripRaw is instantiated by the identity: the suites only log text without IRC
    format codes.  pretty_rest is instantiated for source-less events (the only ones the
-   suites hand to the loggers): "[>] writing <line>" for PRIVMSG/NOTICE with parameters. *)
-Require Import Bytes Utf8 Base64 Sasl.
+   suites hand to the loggers): "[>] writing <line>" for PRIVMSG/NOTICE with parameters.
+   CAP REQ lists its tokens in sorted order (the harness sorts them too: Go's map order). *)
+Require Import Bytes Utf8 Base64 CapLib Sasl.
 
 Definition a9 (n : nat) (args : list str) : str := nth n args [].
 
@@ -47,7 +48,16 @@ Definition step_event (s : str) : event :=
   | [] => mkEv t_srv [] [] false false
   end.
 
-Fixpoint session_steps (c : config) (ou op : str) (cn : conn) (steps : list str)
+(* kind S: a mechanism that keeps state -- the k-th call of Encode (k = 0, 1, ...) returns
+   the k-th of the comma-separated responses in a2, "" once they are used up *)
+Definition k_S := Eval vm_compute in bs "S".
+Definition mech_at (kind a1 a2 : str) (k : nat) : option sasl_mech :=
+  if streqb kind k_S then Some (mkMech a1 (fun _ => nth k (split_byte 44 a2) []))
+  else mk_mech kind a1 a2.
+
+(* cf k: the configuration after k calls of Encode; handleSASL calls Encode exactly when
+   the event is an AUTHENTICATE *)
+Fixpoint session_steps (cf : nat -> config) (k : nat) (ou op : str) (cn : conn) (steps : list str)
   : res (list (list event) * conn) :=
   match steps with
   | [] => Ok ([], cn)
@@ -55,8 +65,10 @@ Fixpoint session_steps (c : config) (ou op : str) (cn : conn) (steps : list str)
     match cn_returned cn with
     | Some _ => Ok ([], cn)
     | None =>
-      x <- (if streqb s t_oper then Ok (cn, [Write (oper_event ou op)]) else feed c cn (step_event s)) ;;
-      y <- session_steps c ou op (fst x) r ;;
+      let e := step_event s in
+      x <- (if streqb s t_oper then Ok (cn, [Write (oper_event ou op)]) else feed (cf k) cn e) ;;
+      let k' := if streqb (ev_cmd e) c_AUTHENTICATE then S k else k in
+      y <- session_steps cf k' ou op (fst x) r ;;
       Ok (writes_of (snd x) :: fst y, snd y)
     end
   end.
@@ -65,10 +77,10 @@ Definition log_flag (e : event) : N :=
   if contains (event_bytes e) (debug_log drv_strip_raw false e) then 80 else 82.   (* 'P' / 'R' *)
 
 Definition session_obs (args : list str) : str :=
-  let c := mkCfg (mk_mech (a9 0 args) (a9 1 args) (a9 2 args)) (a9 3 args)
-                 (mkWebirc (a9 4 args) t_gw t_host t_addr) true t_me t_user t_realname in
-  let reg := registration_writes c in
-  match session_steps c (a9 5 args) (a9 6 args) conn_init (skipn 7 args) with
+  let cf k := mkCfg (mech_at (a9 0 args) (a9 1 args) (a9 2 args) k) (a9 3 args)
+                    (mkWebirc (a9 4 args) t_gw t_host t_addr) true t_me t_user t_realname sort_strs in
+  let reg := registration_writes (cf 0%nat) in
+  match session_steps cf 0%nat (a9 5 args) (a9 6 args) conn_init (skipn 7 args) with
   | Panic => t_PANIC
   | Ok (per_step, cn) =>
     t_Req ++ hexlist (List.map event_bytes reg) ++
